@@ -13,6 +13,8 @@ import manifest_texts as T  # noqa: E402
 
 checks = []
 for pid in sorted(props.PROPS):
+    if pid not in T.CHECKS:
+        continue
     t = T.CHECKS[pid]
     checks.append(
         {
@@ -28,7 +30,7 @@ for pid in sorted(props.PROPS):
         }
     )
 
-na = [{"property_id": p, "reason": r} for p, r in sorted(T.NOT_APPLICABLE.items()) if p not in props.PROPS]
+na = [{"property_id": p, "reason": r} for p, r in sorted(T.NOT_APPLICABLE.items()) if p not in T.CHECKS]
 
 manifest = {
     "version": 1,
@@ -44,7 +46,7 @@ manifest = {
         {
             "name": "kani-cbmc",
             "path": "/verif/tool/run.py",
-            "serves_properties": sorted(props.PROPS),
+            "serves_properties": sorted(p for p in props.PROPS if p in T.CHECKS),
             "kind_free_text": "bounded symbolic execution of the compiled Rust code (Kani 0.68 -> CBMC 6.11 -> CaDiCaL); counterexamples replayed natively against the real code before being reported",
         }
     ],
